@@ -238,5 +238,9 @@ async fn renew_certificate(
 	};
 	#[cfg(feature = "breard_r_acmed_verif")]
 	crate::verif_probe::attempt_end(certificate, is_success).await;
+	if !is_success {
+		// Do not hammer the server (nor the hooks) when the request keeps failing.
+		sleep(Duration::from_secs(backoff[0])).await;
+	}
 	(certificate, account_s.clone(), endpoint_s.clone())
 }
